@@ -54,6 +54,9 @@ type MultipleValueBind struct {
 func (f *MultipleValueBind) Call(s *slip.Scope, args slip.List, depth int) (result slip.Object) {
 	slip.CheckArgCount(s, depth, f, args, 2, -1)
 	v := slip.EvalArg(s, args, 1, depth)
+	if slip.IsExit(v) {
+		return v
+	}
 	values, ok := v.(slip.Values)
 	if !ok {
 		values = slip.Values{v}
